@@ -56,7 +56,7 @@ pub fn synth_schema_sdl() -> String {
          input Point {{ x: Int! y: Int! = 0 label: String tags: [String!] inner: Point pts: [[Point!]] c: Color d: Date f: Float b: Boolean id: ID nl: [Int!]! }}\n\
          input Small {{ p: Int! q: Int }}\ninterface Node {{ id: ID! }}\ninterface Named implements Node {{ id: ID! name: String }}\n\
          type A implements Node & Named {{ id: ID! name: String nick: String a: Int peer: B self: A list: [A!]! nested: [[A]] selfN: A! selfL: [A] selfLN: [A!] selfNL: [A]! nameN: String! names: [String] arg1(x: Int): A arg2(y: Int!, z: Int, l: [Int!], ln: [Int!]!, d: Int! = 1): A leafArg(x: Int, y: Int!): Int }}\n\
-         type B implements Node {{ id: ID! b: Float peer: A peerN: A! peerL: [A] peerLN: [A!] peerNL: [A]! peerNLN: [A!]! peerLL: [[A]] s: String sN: String! sL: [String] i: Int arg1(x: Int): A arg2(q: Int): A leafArg(q: Int): Int }}\nunion AB = A | B\n\
+         type B implements Node {{ id: ID! b: Float peer: A peerN: A! peerL: [A] peerLN: [A!] peerNL: [A]! peerNLN: [A!]! peerLL: [[A]] s: String sN: String! sL: [String] i: Int name: String nick: String arg1(x: Int): A arg2(q: Int): A leafArg(q: Int): Int }}\nunion AB = A | B\n\
          type Query {{\n  small(a: Small, l: [Small!]): Int\n  node: Node\n  named: Named\n  a: A\n  b: B\n  ab: AB\n{}}}\n\
          type Mutation {{ m(a: Int): Int }}\ntype Subscription {{ s1: Int s2: Int sa: A }}\n\
          directive @args({}req: Boolean! = true) repeatable on FIELD | QUERY | MUTATION | SUBSCRIPTION | FRAGMENT_DEFINITION | FRAGMENT_SPREAD | INLINE_FRAGMENT\n\
@@ -449,7 +449,14 @@ pub fn merge_cycle_cases(rng: &mut Rng, n: usize) -> Vec<GDoc> {
         let mut defs: Vec<GDef> = vec![];
         let spreads = |rng: &mut Rng| -> Vec<GSel> {
             let c = rng.range(1, 2);
-            (0..c).map(|_| GSel::Spread { name: fname(rng.below(k)), dirs: vec![] }).collect()
+            (0..c).map(|_| {
+                let mut s = GSel::Spread { name: fname(rng.below(k)), dirs: vec![] };
+                // now and then behind one or two nested inline fragments (typed / untyped)
+                for _ in 0..(if rng.pct(35) { rng.range(1, 2) } else { 0 }) {
+                    s = GSel::Inline { tc: match rng.below(3) { 0 => None, 1 => Some("A".into()), _ => Some("Named".into()) }, dirs: vec![], sels: vec![s] };
+                }
+                s
+            }).collect()
         };
         // the operation
         let mut sels: Vec<GSel> = vec![];
@@ -474,9 +481,9 @@ pub fn merge_cycle_cases(rng: &mut Rng, n: usize) -> Vec<GDoc> {
             for _ in 0..rng.range(1, 3) {
                 match rng.below(20) {
                     0..=4 => body.push(leaf(Some("x"), if rng.pct(50) { "name" } else { "nick" })),
-                    5..=12 => body.push(GSel::Spread { name: fname(rng.below(k)), dirs: vec![] }),
+                    5..=12 => body.extend(spreads(rng).into_iter().take(1)),
                     _ => {
-                        let mut inner = vec![GSel::Spread { name: fname(rng.below(k)), dirs: vec![] }];
+                        let mut inner: Vec<GSel> = spreads(rng).into_iter().take(1).collect();
                         if rng.pct(40) {
                             inner.push(leaf(Some("x"), if rng.pct(50) { "name" } else { "nick" }));
                         }
@@ -1058,6 +1065,68 @@ pub fn operation_mix_cases(rng: &mut Rng, n: usize) -> Vec<GDoc> {
         }
         let _ = nfr;
         out.push(GDoc(defs));
+    }
+    out
+}
+
+
+/// C05: THREE fields under one response key, each behind `... on A` / `... on B` (or directly), each
+/// one of the leaf fields of its type (A: id, name, nick, a; B: id, name, nick, i): every triple, under the
+/// union-typed and the interface-typed root field — a conflict between the 2nd and 3rd that the 1st
+/// does not share, identical leaf fields on different object types, and so on.
+pub fn merge_triple_cases() -> Vec<GDoc> {
+    let atoms: Vec<(&str, &str)> = vec![("A", "id"), ("A", "name"), ("A", "nick"), ("A", "a"), ("B", "id"), ("B", "name"), ("B", "nick"), ("B", "i")];
+    let mut out = vec![];
+    for root in ["ab", "node"] {
+        for x in &atoms {
+            for y in &atoms {
+                for z in &atoms {
+                    let sels: Vec<GSel> = [x, y, z].iter().map(|(t, f)| GSel::Inline { tc: Some(t.to_string()), dirs: vec![],
+                        sels: vec![GSel::Field { alias: Some("k".into()), name: f.to_string(), args: vec![], dirs: vec![], sels: vec![] }] }).collect();
+                    out.push(GDoc(vec![GDef::Op { kind: OpKind::SelSet, name: None, vars: vec![], dirs: vec![],
+                        sels: vec![GSel::Field { alias: None, name: root.into(), args: vec![], dirs: vec![], sels }] }]));
+                }
+            }
+        }
+    }
+    out
+}
+
+
+/// C03 / C05: one self-spreading fragment with TWO same-key fields each leading back to the fragment
+/// (a multi-edge of the cycle), the two spreads behind every combination of wrappers (direct, one
+/// or two nested inline fragments typed / untyped, an extra field level), plus the same with the
+/// second edge going through a second fragment.
+pub fn cycle_multi_edge_cases() -> Vec<GDoc> {
+    let sp = |n: &str| GSel::Spread { name: n.into(), dirs: vec![] };
+    let inl = |tc: Option<&str>, x: GSel| GSel::Inline { tc: tc.map(|t| t.to_string()), dirs: vec![], sels: vec![x] };
+    let fld = |x: Vec<GSel>| GSel::Field { alias: None, name: "self".into(), args: vec![], dirs: vec![], sels: x };
+    let wrappers: Vec<Box<dyn Fn(GSel) -> GSel>> = vec![
+        Box::new(|x| x),
+        Box::new(move |x| inl(None, x)),
+        Box::new(move |x| inl(Some("A"), x)),
+        Box::new(move |x| inl(Some("Named"), inl(Some("A"), x))),
+        Box::new(move |x| inl(None, inl(None, x))),
+        Box::new(move |x| inl(Some("A"), inl(None, inl(Some("Named"), x)))),
+        Box::new(move |x| fld(vec![x])),
+        Box::new(move |x| fld(vec![inl(Some("Named"), inl(Some("A"), x))])),
+    ];
+    let mut out = vec![];
+    for w1 in &wrappers {
+        for w2 in &wrappers {
+            for two in [false, true] {
+                let second = if two { "G" } else { "F" };
+                let body = vec![fld(vec![w1(sp("F"))]), fld(vec![w2(sp(second))])];
+                let mut defs = vec![
+                    GDef::Op { kind: OpKind::SelSet, name: None, vars: vec![], dirs: vec![], sels: vec![GSel::Field { alias: None, name: "a".into(), args: vec![], dirs: vec![], sels: vec![sp("F")] }] },
+                    GDef::Frag { name: "F".into(), tc: "A".into(), dirs: vec![], sels: body },
+                ];
+                if two {
+                    defs.push(GDef::Frag { name: "G".into(), tc: "A".into(), dirs: vec![], sels: vec![fld(vec![w1(sp("F"))]), GSel::Field { alias: None, name: "id".into(), args: vec![], dirs: vec![], sels: vec![] }] });
+                }
+                out.push(GDoc(defs));
+            }
+        }
     }
     out
 }
